@@ -117,4 +117,8 @@ pub trait PxProxy {
     async fn ping(&mut self) -> zlink_core::Result<Result<(), ErrA>>;
     async fn touch(&mut self, key: &str) -> zlink_core::Result<Result<(), ErrNone>>;
     async fn get(&mut self, key: &str) -> zlink_core::Result<Result<OptParams, ErrA>>;
+    #[zlink(more)]
+    async fn watch(
+        &mut self,
+    ) -> zlink_core::Result<impl futures_util::Stream<Item = zlink_core::Result<Result<(), ErrA>>>>;
 }
